@@ -193,7 +193,14 @@ fn hostile_for_subject(ctx: &mut Ctx, acc: &mut Acc, id: &str, plan: &Plan, c05:
     let s = ctx.reg.get(id).unwrap();
     let ty = s.ty();
     let tag = if c05 { TAG_C05 } else { TAG_C06 };
+    // a tree on which one type exhausts the step budget on every other input would take hours: after 64 exhaustions
+    // for one type the point is made, its remaining inputs are skipped (and counted)
+    let mut budget_hits = 0u32;
     let mut visit = |ctx_crumb: &mut monitors::Breadcrumb, acc: &mut Acc, class: &str, bytes: &[u8], crumb: bool| {
+        if budget_hits >= 64 {
+            acc.count("inputs_skipped_after_repeated_budget_exhaustion");
+            return;
+        }
         if crumb && ctx_crumb.active() {
             let shown = if bytes.len() > 4096 { &bytes[..4096] } else { bytes };
             ctx_crumb.set(&format!(
@@ -206,6 +213,9 @@ fn hostile_for_subject(ctx: &mut Ctx, acc: &mut Acc, id: &str, plan: &Plan, c05:
             ));
         }
         let j = judge_total(acc, s, class, bytes, c05);
+        if matches!(j.real, Call::StepBudget(_)) {
+            budget_hits += 1;
+        }
         if c06 {
             judge_content(acc, &check_name, s, &ty, class, bytes, &j.real);
         }
@@ -268,6 +278,21 @@ fn hostile_for_subject(ctx: &mut Ctx, acc: &mut Acc, id: &str, plan: &Plan, c05:
             visit(&mut ctx.crumb, acc, "truncate", &bytes[..k], true);
         }
         prev = bytes;
+    }
+
+    // (b2) well-framed data whose numbers lie outside the value domain of the type (reference encoding of wild values)
+    if ty.any(&mut |t| matches!(t, Ty::Weekday | Ty::Month | Ty::FixedOffset | Ty::Tz | Ty::DateTimeUtc | Ty::NaiveDate | Ty::NaiveTime | Ty::NaiveDateTime | Ty::DateTimeLocal | Ty::DateTimeFixed | Ty::DateTimeTz | Ty::Duration | Ty::BigDecimal), &mut Vec::new()) {
+        let wild = refmodel::GenCtx { out_of_domain: true, allow_large: false, tz_names: ctx.gen.tz_names.clone(), ..refmodel::GenCtx::default() };
+        for wi in 0..plan.tamper_values * 4 {
+            let mut rng = ctx.rng_for(tag ^ 0xD0, id, wi);
+            let v = refmodel::gen_raw(&ty, &mut rng, &wild);
+            if let Ok(bytes) = refmodel::ref_encode(&ty, &v) {
+                if bytes.len() <= 64 * 1024 {
+                    visit(&mut ctx.crumb, acc, "out_of_domain", &bytes, true);
+                    acc.count("tampered:out_of_domain");
+                }
+            }
+        }
     }
 
     // (c) random bytes with the varint dictionary
